@@ -158,101 +158,120 @@ Proof. split; reflexivity. Qed.
 (* ------------------------------------------------------------------------ *)
 (* signatures *)
 
-Lemma rt_no_private : forall ps acc,
-  (forall p, In p ps -> p_private p = false) ->
-  fold_left rt_step ps acc = acc ++ map (fun p => mkSParam (p_name p) (p_kind p) (p_default p) (rt_type p)) ps.
+Lemma gen_def_private_rule : def_private_rule = true.
+Proof. reflexivity. Qed.
+
+Definition posonly_e (e : N * pkind * bool) : N * pkind * bool := let '(n, _, d) := e in (n, PosOnly, d).
+
+Lemma erase_posonly : forall acc, map erase (map make_posonly acc) = map posonly_e (map erase acc).
+Proof. intros acc. rewrite !map_map. apply map_ext. intros [n k d t]. reflexivity. Qed.
+
+Lemma types_posonly : forall acc, map s_type (map make_posonly acc) = map s_type acc.
+Proof. intros acc. rewrite map_map. apply map_ext. intros [n k d t]. reflexivity. Qed.
+
+(* what the binder sees does not depend on the type function *)
+Lemma fold_erase : forall ty1 ty2 r ps acc1 acc2,
+  map erase acc1 = map erase acc2 ->
+  map erase (fold_left (gstep ty1 r) ps acc1) = map erase (fold_left (gstep ty2 r) ps acc2).
 Proof.
-  induction ps as [|p ps IH]; intros acc H; cbn.
-  - now rewrite app_nil_r.
-  - rewrite IH by (intros q Hq; apply H; now right).
-    unfold rt_step. rewrite (H p) by now left. rewrite gen_rt_kind, andb_false_r. now rewrite <- app_assoc.
+  intros ty1 ty2 r. induction ps as [|p ps IH]; intros acc1 acc2 H; cbn; [exact H|].
+  apply IH. unfold gstep.
+  destruct (if r then rt_kind (p_kind p) (p_private p) else (p_kind p, false)) as [k ev].
+  rewrite !map_app. cbn. f_equal.
+  destruct ev; [rewrite !erase_posonly; now rewrite H|exact H].
 Qed.
 
-Lemma param_norm_eq : forall p, param_ok p = true ->
-  norm_sparam (def_param p) = norm_sparam (mkSParam (p_name p) (p_kind p) (p_default p) (rt_type p)).
+(* the i-th parameter keeps the type it was created with *)
+Lemma fold_types : forall ty r ps acc,
+  map s_type (fold_left (gstep ty r) ps acc) = map s_type acc ++ map ty ps.
 Proof.
-  intros [n k d a pr] H. unfold def_param, rt_type. cbn.
+  intros ty r. induction ps as [|p ps IH]; intros acc; cbn; [now rewrite app_nil_r|].
+  rewrite IH. unfold gstep.
+  destruct (if r then rt_kind (p_kind p) (p_private p) else (p_kind p, false)) as [k ev].
+  rewrite map_app. cbn. destruct ev; [rewrite types_posonly|]; now rewrite <- app_assoc.
+Qed.
+
+Lemma norm_type_eq : forall p, norm_type (p_kind p) (def_type p) = norm_type (p_kind p) (rt_type p).
+Proof.
+  intros [n k d a pr]. unfold def_type, rt_type, norm_type. cbn.
   destruct a as [e|].
-  - reflexivity.
-  - unfold norm_sparam. cbn. destruct k; reflexivity.
+  - unfold route_visitor. reflexivity.
+  - unfold wrap. rewrite gen_wrap_spec. destruct k; reflexivity.
 Qed.
 
-Theorem def_sig_eq_runtime_sig_partial : forall ps r,
-  forallb param_ok ps = true ->
-  map norm_sparam (sig_from_def ps) = map norm_sparam (sig_from_runtime ps) /\
+(* full strength: any parameter list (any names, kinds, defaults, annotations) *)
+Theorem def_sig_eq_runtime_sig : forall ps r,
+  map erase (sig_from_def ps) = map erase (sig_from_runtime ps) /\
+  map s_type (sig_from_def ps) = map def_type ps /\
+  map s_type (sig_from_runtime ps) = map rt_type ps /\
+  (forall p, norm_type (p_kind p) (def_type p) = norm_type (p_kind p) (rt_type p)) /\
   ret_from_def r = ret_from_runtime r.
 Proof.
-  intros ps r H. rewrite forallb_forall in H. split.
-  - unfold sig_from_def, sig_from_runtime. rewrite rt_no_private.
-    + cbn. rewrite !map_map. apply map_ext_in. intros p Hp. apply param_norm_eq. now apply H.
-    + intros p Hp. specialize (H p Hp). unfold param_ok in H. now apply negb_true_iff in H.
-  - destruct r as [e|]; reflexivity.
+  intros ps r. unfold sig_from_def, sig_from_runtime. rewrite gen_def_private_rule.
+  split; [now apply fold_erase|].
+  split; [apply fold_types|].
+  split; [apply fold_types|].
+  split; [apply norm_type_eq|].
+  destruct r; reflexivity.
 Qed.
 
-(* def f(a, __b): the runtime route makes both parameters positional-only *)
+(* def f(a, __b): the code before the repair kept both positional-or-keyword on the def route *)
 Definition ex_private : list param :=
   [mkParam 1 PosOrKw false None false; mkParam 2 PosOrKw false None true].
 
-Lemma def_sig_private_refuted :
-  map s_kind (sig_from_def ex_private) = [PosOrKw; PosOrKw] /\
-  map s_kind (sig_from_runtime ex_private) = [PosOnly; PosOnly].
-Proof. split; reflexivity. Qed.
+Lemma def_sig_legacy_refuted :
+  map s_kind (sig_from_def_legacy ex_private) = [PosOrKw; PosOrKw] /\
+  map s_kind (sig_from_runtime ex_private) = [PosOnly; PosOnly] /\
+  map s_kind (sig_from_def ex_private) = [PosOnly; PosOnly].
+Proof. repeat split; reflexivity. Qed.
 
 Definition ex_sig : list param :=
   [mkParam 1 PosOnly false (Some (EClass 1)) false; mkParam 2 PosOrKw true (Some (EOptional (EStr (EClass 2)))) false;
    mkParam 3 VarPos false None false; mkParam 4 KwOnly true None false; mkParam 5 VarKw false (Some (EClass 1)) false].
 
-Lemma def_sig_guard_inhabited :
-  forallb param_ok ex_sig = true /\
-  map norm_sparam (sig_from_runtime ex_sig) =
+Lemma def_sig_example :
+  sig_from_runtime ex_sig =
     [mkSParam 1 PosOnly false (TTyped 1); mkSParam 2 PosOrKw true (TUnion true [TTyped 2]);
-     mkSParam 3 VarPos false (TGeneric tuple_c [TAny]); mkSParam 4 KwOnly true TAny;
-     mkSParam 5 VarKw false (TGeneric dict_c [TTyped str_c; TTyped 1])].
+     mkSParam 3 VarPos false TAny; mkSParam 4 KwOnly true TAny;
+     mkSParam 5 VarKw false (TGeneric dict_c [TTyped str_c; TTyped 1])] /\
+  map s_type (sig_from_def ex_sig) =
+    [TTyped 1; TUnion true [TTyped 2]; TGeneric tuple_c [TAny]; TAny; TGeneric dict_c [TTyped str_c; TTyped 1]].
 Proof. split; reflexivity. Qed.
 
-Lemma def_sig_full_statement_refuted :
-  ~ (forall ps, map norm_sparam (sig_from_def ps) = map norm_sparam (sig_from_runtime ps)).
-Proof. intros H. specialize (H ex_private). vm_compute in H. discriminate. Qed.
-
 (* ------------------------------------------------------------------------ *)
-(* calls: the binder of C05 applied to both signatures *)
+(* calls: the binder of C05 and the call checker of C06 applied to both signatures *)
 Require Import PV.Annot.Calls.
-Require PV.Binder.Kind PV.Binder.Sig PV.Binder.Bind.
+Require PV.Binder.Kind PV.Binder.Sig PV.Binder.Bind PV.TypeVar.Base PV.Call.Model.
 
-Lemma type_of_param_norm : forall l1 l2 n,
-  map norm_sparam l1 = map norm_sparam l2 -> type_of_param l1 n = type_of_param l2 n.
+Lemma decl_table_eq : forall ps, decl_table def_type ps = decl_table rt_type ps.
+Proof. intros ps. unfold decl_table. apply map_ext. intros p. now rewrite norm_type_eq. Qed.
+
+Lemma binder_sig_eq : forall ps, to_binder_sig (sig_from_def ps) = to_binder_sig (sig_from_runtime ps).
 Proof.
-  induction l1 as [|a l1 IH]; intros [|b l2] n H; cbn in H; try discriminate; [reflexivity|].
-  inversion H as [[Hab Hr]]. cbn.
-  assert (Hn : s_name a = s_name b).
-  { assert (E : s_name (norm_sparam a) = s_name (norm_sparam b)) by now rewrite Hab.
-    unfold norm_sparam in E. destruct (s_type a), (s_type b); exact E. }
-  rewrite Hn, Hab. destruct (N.eqb (s_name b) n); [reflexivity|]. now apply IH.
+  intros ps. unfold to_binder_sig. destruct (def_sig_eq_runtime_sig ps None) as (E & _). now rewrite E.
 Qed.
 
-Lemma to_binder_sig_norm : forall l, to_binder_sig (map norm_sparam l) = to_binder_sig l.
-Proof.
-  intros l. unfold to_binder_sig. rewrite map_map. apply map_ext. intros a.
-  unfold norm_sparam. destruct (s_type a); reflexivity.
-Qed.
-
-Theorem call_judged_identically_partial : forall ps raw,
-  forallb param_ok ps = true ->
+Theorem call_judged_identically : forall ps raw,
   call_in_defining_scope ps raw = call_from_importer ps raw.
 Proof.
-  intros ps raw H. unfold call_in_defining_scope, call_from_importer, judge.
-  destruct (def_sig_eq_runtime_sig_partial ps None H) as [E _].
-  rewrite <- (to_binder_sig_norm (sig_from_def ps)), <- (to_binder_sig_norm (sig_from_runtime ps)), E.
-  destruct (Bind.preprocess raw) as [a|]; [|reflexivity].
-  destruct (Bind.bind _ a) as [b|]; [|reflexivity].
-  f_equal. apply map_ext. intros x. f_equal. now apply type_of_param_norm.
+  intros ps raw. unfold call_in_defining_scope, call_from_importer, judge.
+  now rewrite binder_sig_eq, decl_table_eq.
 Qed.
 
-(* def f(a, __p): f(a=1, __p=2) binds in the defining scope and is rejected from an importer *)
-Lemma call_private_refuted :
-  call_in_defining_scope ex_private [Bind.RKw 1; Bind.RKw 2] <> None /\
+(* with argument types: every diagnostic of the call checker and the result type *)
+Theorem call_checked_identically : forall O limit ps r c,
+  check_in_defining_scope O limit ps r c = check_from_importer O limit ps r c.
+Proof.
+  intros O limit ps r c. unfold check_in_defining_scope, check_from_importer, to_csig.
+  destruct (def_sig_eq_runtime_sig ps r) as (E & _ & _ & _ & R).
+  now rewrite E, decl_table_eq, R.
+Qed.
+
+(* the code before the repair: f(a=1, __p=2) binds in the defining scope, is rejected from an importer *)
+Lemma call_legacy_refuted :
+  call_in_defining_scope_legacy ex_private [Bind.RKw 1; Bind.RKw 2] <> None /\
   call_from_importer ex_private [Bind.RKw 1; Bind.RKw 2] = None /\
-  call_in_defining_scope ex_private [Bind.RPos; Bind.RPos] = call_from_importer ex_private [Bind.RPos; Bind.RPos].
+  call_in_defining_scope ex_private [Bind.RKw 1; Bind.RKw 2] = None.
 Proof. vm_compute. repeat split. discriminate. Qed.
 
 Lemma call_example :
